@@ -494,3 +494,30 @@ def scan_inplace_writes():
 
 assumption("C16", "IEEE-754: int(time * factor) with factor in {1, 1e3, 1e6} is exact for |time*factor| < 2^53 (floats are modelled as mathematical reals); the z3 FP lemma did not close (DESIGN 3.3)")
 assumption("C16", "dictionary/heap keys: str `<` is modelled only as a strict total order")
+
+
+# ---- EventQueue.get_next_event_of_type : the earliest pending event of a type (used for the next scheduler start, C05) --
+def _gnet_ens(c):
+    lst = q_list(c.pre, c.arg("self"))
+    ty_ = c.arg("event_type")
+    e = z3.Int(H.fresh_name("gn_e"))
+    of_type = lambda x: z3.And(mem(c.pre, lst, x), ev_type(c.pre, x) == ty_)
+    return {
+        "next_of_type.none_iff_no_such_event": (c.res == 0) == z3.Not(z3.Exists([e], of_type(e))),
+        "next_of_type.is_pending_event_of_that_type": z3.Implies(c.res != 0, of_type(c.res)),
+        # no pending event of that type comes before it in the event order (time, priority, task name)
+        "next_of_type.is_first": z3.Implies(c.res != 0, z3.ForAll([e], z3.Implies(of_type(e), z3.Not(ev_lt(c.pre, e, c.res))), patterns=[mem(c.pre, lst, e)])),
+    }
+
+
+Contract(
+    "simulator.EventQueue.get_next_event_of_type",
+    params={"self": S.EventQueue.ty, "event_type": S.EventType.ty},
+    ret=S.nullable(EVENT),
+    requires=lambda c: {"events_not_none": z3.ForAll([z3.Int("gq_i")], z3.Implies(z3.And(0 <= z3.Int("gq_i"), z3.Int("gq_i") < c.pre.c_len(EL, q_list(c.pre, c.arg("self")))), c.pre.l_elem(EL, q_list(c.pre, c.arg("self")), z3.Int("gq_i")) != 0), patterns=[c.pre.l_elem(EL, q_list(c.pre, c.arg("self")), z3.Int("gq_i"))])},
+    ensures=_gnet_ens,
+    entry_facts=lambda c: [Fact("list.mem_def", c.pre.l_mem_def(EL, q_list(c.pre, c.arg("self")))), Fact("list.index_mem", c.pre.l_index_mem(EL, q_list(c.pre, c.arg("self"))))],
+    allocates=True,
+    note="filter + min over the pending events with Event.__lt__ (min's library contract: a member that no member is smaller than)",
+    props=("C16", "C05"),
+)
